@@ -251,8 +251,18 @@ def random_sd(rng, max_subnets=5, max_size=3, small=False, family=None):
     if rng.random() < 0.3:
         b0 += rng.randint(0, 3)
         b1 += rng.randint(0, 3)
-    return dict(subnets=subnets, topo=topo, nos=nos, nsrv=nsrv, nproc=nproc, exploits=exploits,
-                privescs=privescs, costs=costs, fw=fw, hosts=hosts, sens=sens, limit=limit, bounds=(b0, b1))
+    sd = dict(subnets=subnets, topo=topo, nos=nos, nsrv=nsrv, nproc=nproc, exploits=exploits,
+              privescs=privescs, costs=costs, fw=fw, hosts=hosts, sens=sens, limit=limit, bounds=(b0, b1))
+    return maybe_collide(rng, sd)
+
+
+def maybe_collide(rng, sd):
+    """the same name may be an OS, a service and a process at once ("names can be anything")"""
+    sd.pop("names", None)
+    if rng.random() < 0.3:
+        pool = [f"n{i}" for i in range(max(sd["nos"], sd["nsrv"], sd["nproc"]) + 1)]
+        sd["names"] = (rng.sample(pool, sd["nos"]), rng.sample(pool, sd["nsrv"]), rng.sample(pool, sd["nproc"]))
+    return sd
 
 
 def permuted_sibling(sd):
@@ -276,8 +286,12 @@ def explore_sd(rng):
     family = rng.choice(["chain", "star", "ring", "random", "diamond"])
     sd = random_sd(rng, max_subnets=4, max_size=1, family=family)
     n = len(sd["subnets"])
-    if n > 5:
+    if n > 5 or sd["nsrv"] < 2:
         return explore_sd(rng)
+    if rng.random() < 0.4:
+        hs = list(sd["hosts"])
+        rng.shuffle(hs)               # hosts need not be listed in address order
+        sd["hosts"] = hs
     nsrv, nos = sd["nsrv"], sd["nos"]
     sd["exploits"] = [dict(srv=0, os=None if rng.random() < 0.5 else rng.randrange(nos), prob=rng.choice([1.0, 0.5]),
                            cost=1, acc=1),
@@ -294,7 +308,8 @@ def explore_sd(rng):
         c["fw"] = {}
         if rng.random() < 0.5:
             for _ in range(rng.randint(1, 2)):
-                c["fw"][rng.choice(addrs)] = sorted(rng.sample(range(nsrv), rng.randint(1, nsrv)))
+                # mostly proper subsets: the verdict then depends on the service, not only on the source
+                c["fw"][rng.choice(addrs)] = sorted(rng.sample(range(nsrv), rng.randint(1, max(1, nsrv - 1))))
         hosts.append((a, c))
     sd["hosts"] = hosts
     for k in list(sd["fw"]):
@@ -302,7 +317,7 @@ def explore_sd(rng):
     hm = dict(hosts)
     sd["sens"] = [(a, hm[a]["val"]) for a, _ in sd["sens"]]
     sd["limit"] = None
-    return sd
+    return maybe_collide(rng, sd)
 
 
 def open_sd(rng, family, nsub):
@@ -324,6 +339,7 @@ def open_sd(rng, family, nsub):
     sd["sens"] = [((n - 1, 0), dict(sd["hosts"])[(n - 1, 0)]["val"])]
     sd["limit"] = None
     sd["bounds"] = (n, 1)
+    sd.pop("names", None)
     return sd
 
 
